@@ -322,7 +322,7 @@ class Sample(types.Singleton):
         subset : :class:`Sample`
         '''
 
-        return self.take_elements(numpy.array([ielem for ielem in range(self.nelems) if __mask[self.getindex(ielem)].any()]))
+        return self.take_elements(numpy.array([ielem for ielem in range(self.nelems) if __mask[self.getindex(ielem)].any()], dtype=int))
 
     def take_elements(self, __indices: numpy.ndarray) -> 'Sample':
         if len(__indices):
@@ -416,7 +416,7 @@ class _TransformChainsSample(Sample):
         return _Basis(self, interpolation)
 
     def subset(self, mask: numpy.ndarray) -> Sample:
-        selection = types.frozenarray([ielem for ielem in range(self.nelems) if mask[self.getindex(ielem)].any()])
+        selection = types.frozenarray([ielem for ielem in range(self.nelems) if mask[self.getindex(ielem)].any()], dtype=int)
         transforms = tuple(transform[selection] for transform in self.transforms)
         return Sample.new(self.space, transforms, self.points.take(selection))
 
